@@ -1096,6 +1096,7 @@ class Unit:
         self.assumed = []
         self.required = []
         self.lost_closures = {}   # fn -> closure selectors that matched nothing
+        self.bare_closures = {}   # fn -> closures left without a contract (non-trivial bodies)
         self.lost_ghost = {}   # fn -> ghost variables whose bookkeeping was attached to an optional anchor that is gone
 
     # -- template parsing --
@@ -1546,13 +1547,31 @@ class Unit:
                 # still verified; if it verifies, fine -- if an obligation fails, that may be for want of this contract:
                 # such a failure is undecided, never an alarm
                 self.lost_closures.setdefault(qual, []).append(own)
-        if self.lost_closures.get(qual):
-            # a contract that found no closure can only be missed by a closure that is left WITHOUT a contract and computes
-            # something: if every closure of the function has its contract (or is trivial, `|..| ()`), failures are decidable
-            bare = [ci for ci, c in enumerate(cls, 1) if ci not in fs.closures
-                    and L.norm(L.text(toks, c[2], c[3])).replace(" ", "") not in ("()", "{}", "{()}")]
-            if not bare:
-                del self.lost_closures[qual]
+        # closures that are left WITHOUT a contract and compute something (`|..| ()` is trivial): Verus knows nothing about
+        # what they return, so an obligation of this function that fails may fail for that reason alone -- whether the
+        # closure is one whose contract found no match any more, or one that a change has newly introduced
+        # R35: a closure without a template contract whose body is a pure boolean expression over its parameters and
+        # captured variables (comparison / logical operators, field projections, `*`, literals -- no calls) gets the contract
+        # that its body states: `|p| e`  ->  `|p| -> (__r: bool) ensures __r == (e) { e }`
+        for ci, c in enumerate(cls, 1):
+            if ci in fs.closures or c[4]:
+                continue
+            body_toks = [toks[x] for x in range(c[2], c[3]) if toks[x].kind not in ("ws", "comment")]
+            btxt = "".join(t.text for t in body_toks)
+            pure = body_toks and all(t.kind in ("ident", "num", "char") or (t.kind == "punct" and t.text in "=!<>&|*.+-") for t in body_toks) \
+                and not any(t.kind == "ident" and t.text in KEYWORDS for t in body_toks) \
+                and re.search(r"==|!=|<=|>=|<|>", btxt) and "->" not in btxt and "=>" not in btxt \
+                and not re.search(r"[A-Za-z_0-9]\(", btxt)
+            if pure:
+                bars = L.text(toks, c[0], c[1] + 1)
+                fs.closures[ci] = ("%s -> (__r: bool) ensures __r == (%s)" % (bars, L.norm(L.text(toks, c[2], c[3]))), fs.tpl_line)
+                self.rewrites.append("R35 %s:%d closure `%s %s` gets the contract its body states" % (rf.rel, toks[c[0]].line, L.norm(bars), L.norm(L.text(toks, c[2], c[3]))[:50]))
+        bare = [ci for ci, c in enumerate(cls, 1) if ci not in fs.closures
+                and L.norm(L.text(toks, c[2], c[3])).replace(" ", "") not in ("()", "{}", "{()}")]
+        if not bare:
+            self.lost_closures.pop(qual, None)
+        elif not fs.assume:
+            self.bare_closures[qual] = [L.norm(L.text(toks, cls[ci - 1][0], cls[ci - 1][3]))[:60] for ci in bare]
         for k, (hdr, lno) in fs.closures.items():
             if k < 1 or k > len(cls):
                 raise Undecided("lost anchor: closure %d of %s (function has %d closures)" % (k, qual, len(cls)))
